@@ -33,7 +33,7 @@ ASSUMPTIONS = [
 ]
 PROBES = ["lists", "entries", "entries_changed", "poison_entries", "poison_text", "poison_bg", "three_element_entries", "large_true",
           "empty_list", "duplicates", "calls", "label_checked", "label_skipped_alpha_bg", "mode0", "mode1", "mode2", "very_readable",
-          "status_very_readable", "status_readable", "status_not_readable", "list_entries_form", "alias_family_entries", "same_translucent_text_on_several_backgrounds", "held_results_rechecked", "history_calls_with_other_settings", "exotic_background_entries", "concurrent_call_pairs", "context_switches", "report_variant_tmpdir_on_other_filesystem"]
+          "status_very_readable", "status_readable", "status_not_readable", "list_entries_form", "alias_family_entries", "same_translucent_text_on_several_backgrounds", "held_results_rechecked", "history_calls_with_other_settings", "exotic_background_entries", "concurrent_call_pairs", "context_switches", "calls_under_warnings_as_errors", "report_variant_tmpdir_on_other_filesystem"]
 
 
 def _colour(rng, rgb, role, notation=None):
@@ -140,7 +140,7 @@ def generate(rseed, tier, idx):
     others = [{"mode": e.choice((0, 1, 2, None)), "vr": e.choice((True, True, False)), "when": e.choice(("first", "middle", "middle"))}
               for _ in range(e.choice((0, 1, 1, 2)))]
     renv = {"tmp_other_fs": e.random() < 0.3, "cwd": e.choice(("cwd", "cwd", "work [v2]", "a b/c"))}
-    return {"prop": ID, "mode": mode, "vr": vr, "L": L, "perm": perm, "split": g.randint(0, n), "poison": pe, "others": others, "report_env": renv,
+    return {"prop": ID, "mode": mode, "vr": vr, "L": L, "perm": perm, "split": g.randint(0, n), "poison": pe, "others": others, "report_env": renv, "warn_window": e.random() < 0.25,
             "threads": ({"seed": e.randrange(1 << 62), "mean_gap": e.choice((50, 500, 5000)), "schedule": None} if idx % 4 == 2 and n <= 12 else None),
             "positions": positions, "as": g.choice(("tuple", "tuple", "list")), "container": g.choice(("list", "list", "list", "tuple", "iter", "gen")), "derived": True}
 
@@ -384,6 +384,15 @@ def execute(trace):
         for o in trace.get("others") or ():
             if o["when"] == "middle":
                 history_call(o)
+        if trace.get("warn_window"):
+            # the host runs with warnings turned into errors (python -W error, a strict test runner): the call must still
+            # return one result per entry - an entry that cannot be parsed "does not disturb the other entries"
+            import warnings as _warnings
+
+            with _warnings.catch_warnings():
+                _warnings.simplefilter("error")
+                bump("calls_under_warnings_as_errors")
+                call(L, "warnings-as-errors", "host-settings")
         r9 = call(L, "again", "repetition")
         if r0 is not None and r9 is not None and r0 != r9:
             V("repetition", call="again", first=repr(r0)[:300], second=repr(r9)[:300])
@@ -418,6 +427,10 @@ def shrink(trace):
     if trace.get("threads"):
         t = copy.deepcopy(trace)
         t["threads"] = None
+        yield t
+    if trace.get("warn_window"):
+        t = copy.deepcopy(trace)
+        t["warn_window"] = False
         yield t
     for k in range(len(trace.get("others") or ())):
         t = copy.deepcopy(trace)
